@@ -1,5 +1,5 @@
 (* C17 - taint theorems over Pipe/Taint.v *)
-From Coq Require Import NArith List Bool String.
+From Coq Require Import NArith List Bool String Lia.
 From NG Require Import Svc.TextPost Pipe.Taint.
 Import ListNotations.
 Open Scope string_scope.
@@ -97,3 +97,36 @@ Example taint_example :
   exists tr, turn_dialog llm (fun t _ => t) (fun _ => s2t "tpl") (fun _ => None) (fun _ => None) (fun _ t => t) []
              = Ok (mk (s2t "{{ 7*191 }} $secret") FromLLM, tr).
 Proof. eexists. vm_compute. reflexivity. Qed.
+
+(* ---------------------------------------------------------------- multi-turn *)
+
+(* with a single rendering pass, over ANY number of turns and whatever the LLM and the user wrote
+   in earlier turns, every text interpreted as a template is configuration *)
+Lemma conversation_taint : forall llm render pt denv passes users k0 h h' tr,
+  (passes <= 1)%nat ->
+  conversation llm render pt denv passes k0 h users = Ok (h', tr) ->
+  programs_clean tr.
+Proof.
+  intros llm render pt denv passes users. induction users as [|u rest IH]; intros k0 h h' tr P H.
+  - simpl in H. inversion H. intros e t I. destruct I.
+  - cbn [conversation] in H. unfold call_p in H. cbv beta iota zeta in H. cbn [txt] in H.
+    destruct (general_post (llm k0)) as [m|e]; cbn [bind] in H; [|discriminate H].
+    match type of H with context [bind ?X _] => destruct X as [[h2 t2]|e] eqn:R; cbn [bind fst snd] in H; [|discriminate H] end.
+    inversion H; subst. clear H.
+    assert (A : match passes with S (S _) => False | _ => True end).
+    { destruct passes as [|[|p]]; [exact I|exact I|lia]. }
+    destruct passes as [|[|p]]; try destruct A; simpl;
+      apply programs_clean_cons_config; eapply IH; eauto.
+Qed.
+
+(* a second pass interprets LLM-produced text of an earlier turn: two turns suffice *)
+Lemma conversation_two_passes_refuted :
+  exists llm users h' tr e t,
+    conversation llm (fun t _ => t) (fun _ => s2t "tpl") (fun _ t => t) 2 0 [] users = Ok (h', tr) /\
+    In (e, t) tr /\ e = Render /\ tg t = FromLLM.
+Proof.
+  exists (fun _ => s2t "{{ 7*191 }}"), [s2t "hi"; s2t "more"].
+  eexists. eexists. exists Render. exists (mk (s2t "tpl") FromLLM).
+  split; [vm_compute; reflexivity|]. split; [|split; reflexivity].
+  simpl. auto.
+Qed.
